@@ -94,6 +94,9 @@ func (t *translator) leanType(ty types.Type) string {
 	case *types.Named:
 		if st, ok := u.Underlying().(*types.Struct); ok {
 			name := pkgShort(u.Obj().Pkg()) + "_" + u.Obj().Name()
+			if !firstOrder(u) {
+				fail("struct type %s with fields that are not first-order values", name)
+			}
 			if _, seen := t.structs[name]; !seen {
 				t.structs[name] = st
 				for i := 0; i < st.NumFields(); i++ {
@@ -105,6 +108,11 @@ func (t *translator) leanType(ty types.Type) string {
 		}
 		if _, ok := u.Underlying().(*types.Interface); ok {
 			if u.Obj().Pkg() == nil {
+				if u.Obj().Name() == "error" {
+					// an error value is nil or carries the text of a string-typed error (EncodeError("…")): what the
+					// translated code does with errors is compare them with nil, store them and return them
+					return "Go.Err"
+				}
 				fail("interface type %s", u)
 			}
 			name := pkgShort(u.Obj().Pkg()) + "_" + u.Obj().Name()
@@ -146,6 +154,8 @@ func (t *translator) leanType(ty types.Type) string {
 			return "F32"
 		case types.Float64, types.UntypedFloat:
 			return "F64"
+		case types.String, types.UntypedString:
+			return "String"
 		}
 		fail("basic type %s", u)
 	case *types.Array:
@@ -162,10 +172,37 @@ func (t *translator) leanType(ty types.Type) string {
 		}
 		return "(" + strings.Join(parts, " × ") + ")"
 	case *types.Struct:
-		fail("anonymous struct type")
+		// an anonymous struct type gets a name from its field names
+		var fs []string
+		for i := 0; i < u.NumFields(); i++ {
+			fs = append(fs, u.Field(i).Name())
+		}
+		name := "anon_" + strings.Join(fs, "_")
+		if old, seen := t.structs[name]; seen {
+			if !types.Identical(old, u) {
+				fail("two anonymous struct types with the same field names")
+			}
+			return name
+		}
+		t.structs[name] = u
+		for i := 0; i < u.NumFields(); i++ {
+			t.leanType(u.Field(i).Type())
+		}
+		t.sorder = append(t.sorder, name)
+		return name
 	}
 	fail("type %s", ty)
 	return ""
+}
+
+func isErrorType(ty types.Type) bool {
+	n, ok := ty.(*types.Named)
+	return ok && n.Obj().Pkg() == nil && n.Obj().Name() == "error"
+}
+
+func isString(ty types.Type) bool {
+	b, ok := ty.Underlying().(*types.Basic)
+	return ok && b.Info()&types.IsString != 0
 }
 
 func tyCode(ty types.Type) string {
@@ -213,6 +250,8 @@ func (t *translator) zero(ty types.Type) string {
 			return "(⟨0⟩ : " + t.leanType(ty) + ")"
 		case u.Info()&types.IsInteger != 0:
 			return "(0 : " + t.leanType(ty) + ")"
+		case u.Info()&types.IsString != 0:
+			return "\"\""
 		}
 	case *types.Struct:
 		return t.leanType(ty) + ".zero"
@@ -220,6 +259,10 @@ func (t *translator) zero(ty types.Type) string {
 		return fmt.Sprintf("(Vector.replicate %d %s)", u.Len(), t.zero(u.Elem()))
 	case *types.Slice:
 		return "([] : " + t.leanType(ty) + ")"
+	case *types.Interface:
+		if isErrorType(ty) {
+			return "(none : Go.Err)"
+		}
 	}
 	fail("zero value of %s", ty)
 	return ""
@@ -282,6 +325,9 @@ type loopLoc struct {
 }
 
 type loopInfo struct {
+	sumWrt  *loopInfo                // the loop function returns `Ret ⊕ params(sumWrt)`: see loop()
+	body    map[*ssa.BasicBlock]bool // the natural loop of the header
+	ptypes  []string // Lean types of the loop function's parameters (phis, then memory)
 	name    string
 	id      int
 	header  *ssa.BasicBlock
@@ -496,7 +542,13 @@ func (c *ctx) store(p *ptrv, val string) {
 			io = c.ioFor(p.cell.param, rootTy, p.path[0].field)
 		} else {
 			if isStruct(rootTy) {
-				fail("whole-struct store through pointer parameter")
+				// `*e = T{…}`: every field is written
+				st := rootTy.Underlying().(*types.Struct)
+				for i := 0; i < st.NumFields(); i++ {
+					q := &ptrv{cell: p.cell, path: []step{{field: i, name: st.Field(i).Name(), cidx: -1}}}
+					c.store(q, "("+val+")."+leanIdent(st.Field(i).Name()))
+				}
+				return
 			}
 			io = c.ioFor(p.cell.param, rootTy, -1)
 		}
@@ -544,6 +596,9 @@ func (c *ctx) constExpr(k *ssa.Const) sym {
 	if k.Value == nil {
 		return sym{expr: c.t.zero(ty), typ: ty}
 	}
+	if isString(ty) && k.Value.Kind() == constant.String {
+		return sym{expr: leanString(constant.StringVal(k.Value)), typ: ty}
+	}
 	b, ok := ty.Underlying().(*types.Basic)
 	if !ok {
 		fail("constant of type %s", ty)
@@ -563,6 +618,24 @@ func (c *ctx) constExpr(k *ssa.Const) sym {
 	}
 	fail("constant %s", k)
 	return sym{}
+}
+
+// leanString: a Go string constant as a Lean expression (bytes above 0x7f and control characters by code)
+func leanString(x string) string {
+	plain := true
+	for i := 0; i < len(x); i++ {
+		if x[i] < 0x20 || x[i] > 0x7e || x[i] == '"' || x[i] == '\\' {
+			plain = false
+		}
+	}
+	if plain {
+		return "\"" + x + "\""
+	}
+	var parts []string
+	for i := 0; i < len(x); i++ {
+		parts = append(parts, fmt.Sprintf("%d", x[i]))
+	}
+	return "(Go.strOfBytes [" + strings.Join(parts, ", ") + "])"
 }
 
 func (c *ctx) val(s *state, v ssa.Value) sym {
@@ -691,6 +764,12 @@ func (c *ctx) binop(s *state, b *ssa.BinOp) string {
 	}
 	switch b.Op {
 	case token.ADD, token.SUB, token.MUL:
+		if isString(ty) {
+			if b.Op != token.ADD {
+				fail("string operator %s", b.Op)
+			}
+			return fmt.Sprintf("(%s ++ %s)", x.expr, y.expr)
+		}
 		return fmt.Sprintf("(%s %s %s)", x.expr, b.Op, y.expr)
 	case token.QUO:
 		if isBigInt(ty) {
@@ -758,14 +837,34 @@ func (c *ctx) binop(s *state, b *ssa.BinOp) string {
 			}
 			return e
 		}
-		if st, ok := ty.Underlying().(*types.Struct); ok {
-			for i := 0; i < st.NumFields(); i++ {
-				if !isInt(st.Field(i).Type()) {
-					fail("struct comparison with non-integer fields")
-				}
+		if isErrorType(ty) || isErrorType(b.Y.Type()) {
+			// only comparison with nil
+			kx, okx := b.X.(*ssa.Const)
+			ky, oky := b.Y.(*ssa.Const)
+			var other sym
+			switch {
+			case oky && ky.Value == nil:
+				other = x
+			case okx && kx.Value == nil:
+				other = y
+			default:
+				fail("comparison of two error values")
 			}
-		} else if _, ok := ty.Underlying().(*types.Basic); !ok {
-			fail("comparison on %s", ty)
+			if b.Op == token.EQL {
+				return "(" + other.expr + ").isNone"
+			}
+			return "(" + other.expr + ").isSome"
+		}
+		if !intOnly(ty) {
+			// Go compares floats inside structs and arrays with ==, not bit for bit
+			eq := c.goEq(ty, x.expr, y.expr)
+			if b.Op == token.EQL {
+				return eq
+			}
+			if b.Op == token.NEQ {
+				return "(!" + eq + ")"
+			}
+			fail("ordering comparison on %s", ty)
 		}
 		switch b.Op {
 		case token.EQL:
@@ -784,6 +883,46 @@ func (c *ctx) binop(s *state, b *ssa.BinOp) string {
 		return e
 	}
 	fail("binary operator %s", b.Op)
+	return ""
+}
+
+// intOnly: values of this type are equal in Go exactly when they are equal as Lean values
+func intOnly(ty types.Type) bool {
+	switch u := ty.Underlying().(type) {
+	case *types.Basic:
+		return u.Info()&(types.IsInteger|types.IsBoolean|types.IsString) != 0
+	case *types.Struct:
+		for i := 0; i < u.NumFields(); i++ {
+			if !intOnly(u.Field(i).Type()) {
+				return false
+			}
+		}
+		return true
+	case *types.Array:
+		return intOnly(u.Elem())
+	}
+	return false
+}
+
+// goEq: Go's == on a comparable first-order type, as a Bool expression
+func (c *ctx) goEq(ty types.Type, a, b string) string {
+	if intOnly(ty) {
+		return fmt.Sprintf("(decide (%s = %s))", a, b)
+	}
+	switch u := ty.Underlying().(type) {
+	case *types.Basic:
+		if fl := tyCode0(ty); fl != "" {
+			return fmt.Sprintf("(%s.feq %s %s)", fl, a, b)
+		}
+	case *types.Struct:
+		var parts []string
+		for i := 0; i < u.NumFields(); i++ {
+			f := leanIdent(u.Field(i).Name())
+			parts = append(parts, c.goEq(u.Field(i).Type(), "("+a+")."+f, "("+b+")."+f))
+		}
+		return "(" + strings.Join(parts, " && ") + ")"
+	}
+	fail("comparison on %s", ty)
 	return ""
 }
 
@@ -857,7 +996,7 @@ func (c *ctx) instr(s *state, in ssa.Instruction, d int) {
 			if cl == nil {
 				fail("load from consumed memory")
 			}
-			if _, isIface := x.Type().Underlying().(*types.Interface); isIface {
+			if _, isIface := x.Type().Underlying().(*types.Interface); isIface && !isErrorType(x.Type()) {
 				// an interface value is handled as a reference to the place it was read from (its abstract state lives there)
 				c.t.leanType(x.Type())
 				s.env[x] = sym{ptr: &ptrv{cell: cl, path: p.ptr.path}, typ: x.Type(), iface: true}
@@ -874,6 +1013,18 @@ func (c *ctx) instr(s *state, in ssa.Instruction, d int) {
 			fail("unary operator %s", x.Op)
 		}
 	case *ssa.Convert:
+		if isString(x.X.Type()) && isString(x.Type()) {
+			v := c.val(s, x.X)
+			v.typ = x.Type()
+			s.env[x] = v
+			return
+		}
+		if sl, ok := x.Type().Underlying().(*types.Slice); ok && isString(x.X.Type()) {
+			if b, ok := sl.Elem().Underlying().(*types.Basic); ok && b.Kind() == types.Uint8 {
+				bind(x, "(Go.bytesOfStr "+c.val(s, x.X).expr+")")
+				return
+			}
+		}
 		from, to := tyCode(x.X.Type()), tyCode(x.Type())
 		if from == to {
 			s.env[x] = c.val(s, x.X)
@@ -1041,10 +1192,14 @@ func (c *ctx) instr(s *state, in ssa.Instruction, d int) {
 		if v.ptr != nil || v.fn != nil || v.comps != nil || v.iface || !firstOrder(x.X.Type()) {
 			fail("*ssa.MakeInterface")
 		}
+		if isErrorType(x.Type()) && isString(x.X.Type()) {
+			bind(x, "(some "+v.expr+" : Go.Err)")
+			return
+		}
 		s.env[x] = sym{expr: v.expr, typ: x.X.Type(), boxed: true}
 	case *ssa.TypeAssert, *ssa.ChangeInterface, *ssa.MakeClosure, *ssa.MakeMap, *ssa.MakeChan,
 		*ssa.MakeSlice, *ssa.Lookup, *ssa.MapUpdate, *ssa.Range, *ssa.Next, *ssa.Select, *ssa.Send, *ssa.Go, *ssa.Defer,
-		*ssa.RunDefers, *ssa.Panic, *ssa.SliceToArrayPointer, *ssa.MultiConvert:
+		*ssa.RunDefers, *ssa.SliceToArrayPointer, *ssa.MultiConvert:
 		fail("%T", in)
 	default:
 		fail("instruction %T", in)
@@ -1062,6 +1217,9 @@ func (c *ctx) call(s *state, x *ssa.Call, d int) {
 		case "append":
 			a0, a1 := c.val(s, com.Args[0]), c.val(s, com.Args[1])
 			e := fmt.Sprintf("(%s ++ %s)", a0.expr, a1.expr)
+			if isString(com.Args[1].Type()) {
+				e = fmt.Sprintf("(%s ++ Go.bytesOfStr %s)", a0.expr, a1.expr)
+			}
 			fmt.Fprintf(&c.out, "%slet %s := %s\n", ind(d), c.prefix+x.Name(), e)
 			s.env[x] = sym{expr: c.prefix + x.Name(), typ: x.Type()}
 			return
@@ -1302,7 +1460,9 @@ func (t *translator) methodOK(named *types.Named, method string) (ok bool) {
 func firstOrder(ty types.Type) bool {
 	switch u := ty.Underlying().(type) {
 	case *types.Basic:
-		return u.Info()&types.IsString == 0 && u.Kind() != types.UnsafePointer
+		return u.Kind() != types.UnsafePointer
+	case *types.Interface:
+		return isErrorType(ty)
 	case *types.Struct:
 		for i := 0; i < u.NumFields(); i++ {
 			if !firstOrder(u.Field(i).Type()) {
@@ -1329,6 +1489,29 @@ func (c *ctx) block(s *state, b *ssa.BasicBlock, from *ssa.BasicBlock, onPath ma
 		return
 	}
 	c.blockFrom(s, b, from, onPath, d, false)
+}
+
+// naturalLoop: the header and every block from which a back edge to it is reachable without passing the header
+func naturalLoop(h *ssa.BasicBlock) map[*ssa.BasicBlock]bool {
+	body := map[*ssa.BasicBlock]bool{h: true}
+	var work []*ssa.BasicBlock
+	for _, p := range h.Preds {
+		if h.Dominates(p) && !body[p] {
+			body[p] = true
+			work = append(work, p)
+		}
+	}
+	for len(work) > 0 {
+		n := work[len(work)-1]
+		work = work[:len(work)-1]
+		for _, p := range n.Preds {
+			if !body[p] {
+				body[p] = true
+				work = append(work, p)
+			}
+		}
+	}
+	return body
 }
 
 func isLoopHeader(b *ssa.BasicBlock) bool {
@@ -1380,7 +1563,7 @@ func (c *ctx) retTypeNow() string {
 			rs = append(rs, c.t.leanType(ct))
 			continue
 		}
-		if _, isI := res.At(i).Type().Underlying().(*types.Interface); isI {
+		if _, isI := res.At(i).Type().Underlying().(*types.Interface); isI && !isErrorType(res.At(i).Type()) {
 			rs = append(rs, "Unit") // not yet known (first pass)
 			continue
 		}
@@ -1402,7 +1585,7 @@ func (c *ctx) loop(s *state, b *ssa.BasicBlock, from *ssa.BasicBlock, onPath map
 	if c.loops == nil {
 		c.loops = map[*ssa.BasicBlock]*loopInfo{}
 	}
-	li := &loopInfo{id: b.Index, header: b, locSet: map[loopLoc]bool{}, maxCell: c.ncell}
+	li := &loopInfo{id: b.Index, header: b, locSet: map[loopLoc]bool{}, maxCell: c.ncell, body: naturalLoop(b)}
 	for _, in := range b.Instrs {
 		ph, ok := in.(*ssa.Phi)
 		if !ok {
@@ -1435,6 +1618,33 @@ func (c *ctx) loop(s *state, b *ssa.BasicBlock, from *ssa.BasicBlock, onPath map
 	li.fuel = fmt.Sprintf("fuel%d", li.id)
 	c.loops[b] = li
 	defer delete(c.loops, b)
+	// Which loop, if any, is this one INSIDE?  Loop functions are nested textually wherever they are met (the code after a
+	// loop is part of that loop's function), but only a loop whose body contains this header can be gone round again
+	// from in here.  A loop inside a loop must not call the enclosing loop's function (a mutual recursion that is not
+	// structural): its function returns `Sum.inl result` or `Sum.inr (arguments for the enclosing loop's next round)`,
+	// and the enclosing loop's body dispatches.
+	var cur *loopInfo
+	if len(c.lstack) > 0 {
+		cur = c.lstack[len(c.lstack)-1]
+	}
+	var enc *loopInfo
+	for k := len(c.lstack) - 1; k >= 0; k-- {
+		if c.lstack[k].body[b] {
+			enc = c.lstack[k]
+			break
+		}
+	}
+	li.sumWrt = nil
+	if enc != nil {
+		li.sumWrt = enc
+		if enc == cur {
+			if cur.sumWrt != nil {
+				fail("loops nested more than two deep")
+			}
+		} else if cur.sumWrt != enc {
+			fail("loop nesting too involved")
+		}
+	}
 	// discover the memory the loop carries: run the body, discard the text, until no new location is written
 	for iter := 0; ; iter++ {
 		if iter > 8 {
@@ -1456,18 +1666,47 @@ func (c *ctx) loop(s *state, b *ssa.BasicBlock, from *ssa.BasicBlock, onPath map
 	li.name = fmt.Sprintf("loop%d_%d", li.id, c.loopSeq)
 	name := li.name
 	var params, args []string
+	li.ptypes = nil
 	for i, ph := range li.phis {
-		params = append(params, fmt.Sprintf("(%s : %s)", c.prefix+ph.Name(), c.t.leanType(ph.Type())))
+		lt := c.t.leanType(ph.Type())
+		params = append(params, fmt.Sprintf("(%s : %s)", c.prefix+ph.Name(), lt))
+		li.ptypes = append(li.ptypes, lt)
 		args = append(args, initVals[i].expr)
 	}
 	for i, loc := range li.locs {
-		params = append(params, fmt.Sprintf("(m%d_%d : %s)", li.id, i, c.t.leanType(c.locType(s, loc))))
+		lt := c.t.leanType(c.locType(s, loc))
+		params = append(params, fmt.Sprintf("(m%d_%d : %s)", li.id, i, lt))
+		li.ptypes = append(li.ptypes, lt)
 		args = append(args, c.load(c.locPtr(s, loc)))
 	}
-	fmt.Fprintf(&c.out, "%slet rec %s (%s : Nat) %s : %s :=\n%smatch %s with\n%s| 0 => default\n%s| %s' + 1 =>\n",
-		ind(d), name, li.fuel, strings.Join(params, " "), c.retTypeNow(), ind(d+1), li.fuel, ind(d+1), ind(d+1), li.fuel)
+	rt := c.retTypeNow()
+	zero := "default"
+	if li.sumWrt != nil {
+		ot := "Unit"
+		if len(li.sumWrt.ptypes) > 0 {
+			ot = strings.Join(li.sumWrt.ptypes, " × ")
+		}
+		rt = "(" + rt + ") ⊕ (" + ot + ")"
+		zero = "Sum.inl default"
+	}
+	fmt.Fprintf(&c.out, "%slet rec %s (%s : Nat) %s : %s :=\n%smatch %s with\n%s| 0 => %s\n%s| %s' + 1 =>\n",
+		ind(d), name, li.fuel, strings.Join(params, " "), rt, ind(d+1), li.fuel, ind(d+1), zero, ind(d+1), li.fuel)
 	c.loopBody(s.clone(), li, onPath, d+2)
-	fmt.Fprintf(&c.out, "%s%s %s %s\n", ind(d), name, outerFuel, strings.Join(args, " "))
+	call := fmt.Sprintf("%s %s %s", name, outerFuel, strings.Join(args, " "))
+	switch {
+	case li.sumWrt == nil:
+		fmt.Fprintf(&c.out, "%s%s\n", ind(d), c.leaf("("+call+")"))
+	case enc == cur:
+		c.tmp++
+		pv := fmt.Sprintf("%sp%d", c.prefix, c.tmp)
+		var oargs []string
+		for j := range enc.ptypes {
+			oargs = append(oargs, proj(pv, j, len(enc.ptypes)))
+		}
+		fmt.Fprintf(&c.out, "%smatch %s with\n%s| Sum.inl v => v\n%s| Sum.inr %s => %s %s' %s\n", ind(d), call, ind(d), ind(d), pv, enc.name, enc.fuel, strings.Join(oargs, " "))
+	default: // cur is itself a function that hands back to enc
+		fmt.Fprintf(&c.out, "%s%s\n", ind(d), call)
+	}
 }
 
 func (c *ctx) loopBody(s *state, li *loopInfo, onPath map[*ssa.BasicBlock]bool, d int) {
@@ -1515,7 +1754,35 @@ func (c *ctx) backEdge(s *state, li *loopInfo, from *ssa.BasicBlock, d int) {
 	for _, loc := range li.locs {
 		args = append(args, c.load(c.locPtr(s, loc)))
 	}
+	cur := c.lstack[len(c.lstack)-1]
+	if cur != li {
+		// the enclosing loop goes round again: hand its arguments back (see loop)
+		if cur.sumWrt != li {
+			var names []string
+			for _, l := range c.lstack {
+				w := "-"
+				if l.sumWrt != nil {
+					w = fmt.Sprint(l.sumWrt.id)
+				}
+				names = append(names, fmt.Sprintf("%d(sumWrt %s)", l.id, w))
+			}
+			fail("back edge across loop functions: to %d from stack %v", li.id, names)
+		}
+		if len(args) == 0 {
+			args = []string{"()"}
+		}
+		fmt.Fprintf(&c.out, "%sSum.inr (%s)\n", ind(d), strings.Join(args, ", "))
+		return
+	}
 	fmt.Fprintf(&c.out, "%s%s %s' %s\n", ind(d), li.name, li.fuel, strings.Join(args, " "))
+}
+
+// leaf: a final result, seen from inside a nested loop function
+func (c *ctx) leaf(e string) string {
+	if len(c.lstack) > 0 && c.lstack[len(c.lstack)-1].sumWrt != nil {
+		return "Sum.inl " + e
+	}
+	return e
 }
 
 func (c *ctx) blockFrom(s *state, b *ssa.BasicBlock, from *ssa.BasicBlock, onPath map[*ssa.BasicBlock]bool, d int, phisBound bool) {
@@ -1574,6 +1841,12 @@ func (c *ctx) blockFrom(s *state, b *ssa.BasicBlock, from *ssa.BasicBlock, onPat
 		case *ssa.Jump:
 			c.block(s, b.Succs[0], b, onPath, d)
 			return
+		case *ssa.Panic:
+			// an explicit panic ends the path: the translation is about the executions that do not panic; the leaf
+			// yields the default value of the result type (and says so)
+			c.leaves++
+			fmt.Fprintf(&c.out, "%s%s\n", ind(d), c.leaf("(Go.panicked default)"))
+			return
 		case *ssa.Return:
 			c.leaves++
 			if c.leaves > 400 {
@@ -1585,7 +1858,7 @@ func (c *ctx) blockFrom(s *state, b *ssa.BasicBlock, from *ssa.BasicBlock, onPat
 				if v.ptr != nil || v.fn != nil || v.comps != nil || v.iface {
 					fail("returning a non-first-order value")
 				}
-				if _, isI := r.Type().Underlying().(*types.Interface); isI {
+				if _, isI := r.Type().Underlying().(*types.Interface); isI && !isErrorType(r.Type()) {
 					if !v.boxed {
 						fail("returning an interface value")
 					}
@@ -1610,11 +1883,11 @@ func (c *ctx) blockFrom(s *state, b *ssa.BasicBlock, from *ssa.BasicBlock, onPat
 			}
 			switch len(parts) {
 			case 0:
-				fmt.Fprintf(&c.out, "%s()\n", ind(d))
+				fmt.Fprintf(&c.out, "%s%s\n", ind(d), c.leaf("()"))
 			case 1:
-				fmt.Fprintf(&c.out, "%s%s\n", ind(d), parts[0])
+				fmt.Fprintf(&c.out, "%s%s\n", ind(d), c.leaf(parts[0]))
 			default:
-				fmt.Fprintf(&c.out, "%s(%s)\n", ind(d), strings.Join(parts, ", "))
+				fmt.Fprintf(&c.out, "%s%s\n", ind(d), c.leaf("("+strings.Join(parts, ", ")+")"))
 			}
 			return
 		default:
@@ -1862,10 +2135,9 @@ func (t *translator) translate(fn *ssa.Function) (fi *fnInfo) {
 			}
 			switch p.Type().Underlying().(type) {
 			case *types.Interface, *types.Signature, *types.Map, *types.Chan:
-				fail("parameter of type %s", p.Type())
-			}
-			if _, isStr := p.Type().Underlying().(*types.Basic); isStr && p.Type().Underlying().(*types.Basic).Info()&types.IsString != 0 {
-				fail("string parameter")
+				if !isErrorType(p.Type()) {
+					fail("parameter of type %s", p.Type())
+				}
 			}
 			s.env[p] = sym{expr: c.paramName(i), typ: p.Type()}
 		}
@@ -2026,18 +2298,6 @@ func main() {
 	// types
 	var tb strings.Builder
 	tb.WriteString("import Ivg.Gen.GoPrelude\n/-! GENERATED by /verif/translator from the Go source of /repo — do not edit. Struct types passed by value. -/\nnamespace Ivg.Gen.Code\nopen Ivg.Num Ivg.Gen\n\n")
-	for _, name := range t.sorder {
-		st := t.structs[name]
-		fmt.Fprintf(&tb, "structure %s where\n", name)
-		var zs []string
-		for i := 0; i < st.NumFields(); i++ {
-			f := st.Field(i)
-			fmt.Fprintf(&tb, "  %s : %s\n", leanIdent(f.Name()), t.leanType(f.Type()))
-			zs = append(zs, t.zero(f.Type()))
-		}
-		fmt.Fprintf(&tb, "deriving DecidableEq, Repr\n")
-		fmt.Fprintf(&tb, "def %s.zero : %s := ⟨%s⟩\ninstance : Inhabited %s := ⟨%s.zero⟩\n\n", name, name, strings.Join(zs, ", "), name, name)
-	}
 	// interfaces: the object behind an interface value is an abstract state `R` with one function per method
 	// (methods whose signature mentions interfaces, functions, strings … are left out: code calling them is unsupported)
 	var ib strings.Builder
@@ -2070,17 +2330,45 @@ func main() {
 	// (structs discovered while printing the method signatures)
 	var tb2 strings.Builder
 	tb2.WriteString("import Ivg.Gen.GoPrelude\n/-! GENERATED by /verif/translator from the Go source of /repo — do not edit. Struct types passed by value; interfaces as abstract objects. -/\nnamespace Ivg.Gen.Code\nopen Ivg.Num Ivg.Gen\n\n")
-	for _, name := range t.sorder {
+	badStruct := map[string]bool{}
+	for k := 0; k < len(t.sorder); k++ { // (printing a struct may register the types of its fields)
+		name := t.sorder[k]
 		st := t.structs[name]
-		fmt.Fprintf(&tb2, "structure %s where\n", name)
-		var zs []string
-		for i := 0; i < st.NumFields(); i++ {
-			f := st.Field(i)
-			fmt.Fprintf(&tb2, "  %s : %s\n", leanIdent(f.Name()), t.leanType(f.Type()))
-			zs = append(zs, t.zero(f.Type()))
+		text, ok := func() (txt string, ok bool) {
+			defer func() {
+				if r := recover(); r != nil {
+					if _, isU := r.(unsupported); !isU {
+						panic(r)
+					}
+					ok = false
+				}
+			}()
+			var sb strings.Builder
+			fmt.Fprintf(&sb, "structure %s where\n", name)
+			var zs []string
+			for i := 0; i < st.NumFields(); i++ {
+				f := st.Field(i)
+				if f.Name() == "_" || f.Name() == "" {
+					fail("blank field")
+				}
+				lt := t.leanType(f.Type())
+				for bad := range badStruct {
+					if strings.Contains(lt, bad) {
+						fail("field of an unsupported struct type")
+					}
+				}
+				fmt.Fprintf(&sb, "  %s : %s\n", leanIdent(f.Name()), lt)
+				zs = append(zs, t.zero(f.Type()))
+			}
+			fmt.Fprintf(&sb, "deriving DecidableEq, Repr\n")
+			fmt.Fprintf(&sb, "def %s.zero : %s := ⟨%s⟩\ninstance : Inhabited %s := ⟨%s.zero⟩\n\n", name, name, strings.Join(zs, ", "), name, name)
+			return sb.String(), true
+		}()
+		if !ok {
+			badStruct[name] = true
+			continue
 		}
-		fmt.Fprintf(&tb2, "deriving DecidableEq, Repr\n")
-		fmt.Fprintf(&tb2, "def %s.zero : %s := ⟨%s⟩\ninstance : Inhabited %s := ⟨%s.zero⟩\n\n", name, name, strings.Join(zs, ", "), name, name)
+		tb2.WriteString(text)
 	}
 	tb2.WriteString(ib.String())
 	tb2.WriteString("end Ivg.Gen.Code\n")
@@ -2175,7 +2463,7 @@ func main() {
 				fmt.Fprintf(&b, "import Ivg.Gen.Code.%s\n", im)
 			}
 		}
-		fmt.Fprintf(&b, "/-! GENERATED by /verif/translator: package-level variables of %s as initialised — do not edit. -/\nnamespace Ivg.Gen.Code\nopen Ivg.Num Ivg.Gen\n\n%s\nend Ivg.Gen.Code\n", q.Path(), t.gdefs[q])
+		fmt.Fprintf(&b, "/-! GENERATED by /verif/translator: package-level variables of %s as initialised — do not edit. -/\nset_option maxRecDepth 100000\nnamespace Ivg.Gen.Code\nopen Ivg.Num Ivg.Gen\n\n%s\nend Ivg.Gen.Code\n", q.Path(), t.gdefs[q])
 		write("G_"+pkgShort(q)+".lean", b.String())
 	}
 	for _, fi := range all {
